@@ -22,6 +22,10 @@ pub enum HistOp {
     Randomize(u64),
     /// bring to Idle (break / replace after NEW)
     Settle,
+    /// the host call `stop_evaluating()` in whatever state the interpreter is
+    Stop,
+    /// when awaiting input: hand over a reply, then `stop_evaluating()` before the next turn
+    ReplyThenStop(String),
 }
 
 pub struct HistGen {
@@ -96,7 +100,7 @@ pub fn generate(rng: &mut Rng, len: usize, hostile: bool) -> (Vec<HistOp>, HistG
                 }
             }
             21 => ops.push(HistOp::Randomize(rng.next_u64() >> rng.below(40))),
-            22 => ops.push(HistOp::Settle),
+            22 => ops.push(match rng.below(4) { 0 => HistOp::Stop, 1 => HistOp::ReplyThenStop(text::random_reply(rng)), _ => HistOp::Settle }),
             23 if hostile => ops.push(HistOp::Line(text::random_line(rng, 12))),
             24 if hostile => ops.push(HistOp::Line(toks::join(&toks::random_pieces(rng, 8)))),
             25 if hostile => {
@@ -185,6 +189,19 @@ pub fn apply(sess: &mut Session, op: &HistOp, replies: &[String], reply_idx: &mu
         HistOp::Settle => {
             sess.settle();
             calls += 1;
+        }
+        HistOp::Stop => {
+            if sess.state() != InterpreterState::NewInterpreterRequested {
+                sess.call(Op::Stop);
+                calls += 1;
+            }
+        }
+        HistOp::ReplyThenStop(t) => {
+            if sess.state() == InterpreterState::AwaitingInput {
+                sess.call(Op::Input(t.clone()));
+                sess.call(Op::Stop);
+                calls += 2;
+            }
         }
     }
     if !sess.poisoned && sess.state() == InterpreterState::NewInterpreterRequested {
